@@ -192,3 +192,4 @@ package domain
 //@ requires_held validateDelete idx.mu W
 //@ requires_held indexPersist.prepare idx.mu R
 //@ unshared Open the index is built before it is reachable from any other goroutine
+//@ lock_alias .indexPersist.idx
